@@ -486,7 +486,7 @@ func (p *Parser) parseExpressionStatement() ast.Node {
 // maxNestingDepth bounds the nesting of expressions and blocks. The parser is
 // recursive: without a bound, a source text of a megabyte of "(" exhausts the
 // Go stack, which no recover can catch.
-const maxNestingDepth = 100000
+const maxNestingDepth = 10000
 
 func (p *Parser) parseNode(precedence int) ast.Node {
 	if p.curToken.Type == token.EOF || p.err != nil {
